@@ -222,7 +222,7 @@ pub fn last_kind(trace: &[String]) -> String {
         .unwrap_or_else(|| "root".into())
 }
 
-pub fn assemble(id: &str, runs: Vec<HistRun>, required: &[&str], rule: &str, assumptions: Vec<String>, forged_roots: &[&str]) -> Outcome {
+pub fn assemble(id: &str, runs: Vec<HistRun>, required: &[&str], expected: &[&str], rule: &str, assumptions: Vec<String>, forged_roots: &[&str]) -> Outcome {
     let mut o = Outcome { level: "model_checking".into(), assumptions, ..Default::default() };
     let mut states = 0u64;
     let mut transitions = 0u64;
@@ -270,6 +270,7 @@ pub fn assemble(id: &str, runs: Vec<HistRun>, required: &[&str], rule: &str, ass
             o.machinery.push(format!("vacuity guard: outcome class '{}' was never exercised", req));
         }
     }
+    let unexercised: Vec<&&str> = expected.iter().filter(|req| !classes.iter().any(|(k, v)| *v > 0 && class_matches(k, req))).collect();
     let distinct = classes.len() as u64;
     o.coverage = json!({
         "states": states,
@@ -283,6 +284,7 @@ pub fn assemble(id: &str, runs: Vec<HistRun>, required: &[&str], rule: &str, ass
         "per_world": per_world,
         "outcome_classes": classes,
         "forged_roots": forged_roots,
+        "expected_but_unexercised_classes": unexercised,
         "validation_note": "the successor relation is marginfi::entry itself (no separate model of the program): every transition is an execution of the implementation; the environment model (E1) is bound to the Agave runtime by the conformance replay (E4), reported separately when run",
     });
     o
